@@ -923,6 +923,9 @@ def check_name_scope(repo, res, rule):
 # C04-R1 instances: which loop shapes answer differently depending on what was asked first
 # ---------------------------------------------------------------------------
 
+LOOP_ALONE_WRONG = []     # filled by loop_order_records: (cls, mode, asked, wanted (x, y), answered) where a lone lookup disagrees with the graph
+
+
 def loop_order_records(repo):
     """For every loop construct (for / async for / while) the region graph the extractor builds (E1, base path of the largest
     shape) is rebuilt from supp's own Flow / LoopFlow objects, once with every body statement a compound one (it leaves a region of
@@ -933,6 +936,7 @@ def loop_order_records(repo):
     -> list of (cls, mode, asked, first, alone, after_first)"""
     from . import rules_e1 as R
     from .templates import Template
+    wrong = LOOP_ALONE_WRONG
 
     def build():
         m = get_model(repo)
@@ -951,13 +955,14 @@ def loop_order_records(repo):
     def explore_loops(m):
         out = []
         n = 0
+        del wrong[:]
         for cls in ('For', 'AsyncFor', 'While'):
             summs = R.summaries(repo).get(cls) or []
             s = next((x for x in summs if x.variant == 'max'), None)
             bp = R.base_path(s) if s is not None else None
             if bp is None or bp.raised is not None:
                 raise AnalysisError('no base summary for %s' % cls)
-            for mode in ('compound', 'simple'):
+            for mode in ('compound', 'simple', 'nested loop'):
                 t = Template(s.root, bp)
                 alias = dict(t.alias)
                 if mode == 'simple':
@@ -976,7 +981,7 @@ def loop_order_records(repo):
                     reads.append((path[5:] if path.startswith('node.') else path, canon(reg), 10 * (i + 1)))
                 final = canon(bp.final_flow)
                 reads.append(('after the loop', final, 10 * (len(bp.visits) + 2)))
-                if mode == 'compound':
+                if mode != 'simple':
                     for lab, _reg, line in list(reads):
                         if 'exit(node.%s)' % lab in bp.regions and t.sort_of('node.' + lab) == 'stmt':
                             reads.append(('inside ' + lab, 'inside ' + lab, line + 3))
@@ -986,7 +991,7 @@ def loop_order_records(repo):
                 last_label, last_reg, last_line = body_reads[-1]
                 # where a binding made by the last body statement lives: its exit region (compound) or its own region (simple)
                 last_path = 'node.' + last_label
-                late_reg = canon('exit(%s)' % last_path) if mode == 'compound' else last_reg
+                late_reg = canon('exit(%s)' % last_path) if mode != 'simple' else last_reg
 
                 def fresh():
                     m.it.steps = 0
@@ -1003,10 +1008,13 @@ def loop_order_records(repo):
                         if canon(tok) != tok:
                             continue
                         ps = [flows[canon(p)] for p in r['parents'] if canon(p) != tok]
-                        if mode == 'compound' and r.get('exit_of') and t.sort_of(r['exit_of'][0]) == 'stmt' and len(ps) == 1:
+                        if mode != 'simple' and r.get('exit_of') and t.sort_of(r['exit_of'][0]) == 'stmt' and len(ps) == 1:
                             # a compound statement: a branch inside it (entered from where the statement starts) and the region
                             # it leaves behind, reached through the branch or around it
                             inner = m.flow('inside ' + r['exit_of'][0], fs, [ps[0]])
+                            if mode == 'nested loop':
+                                # ... which is itself a loop whose body stays in one region (the back edge returns to its start)
+                                m.it.call(m.it.getattr(inner, 'loop'), [inner], {})
                             flows['inside ' + r['exit_of'][0][5:]] = inner
                             ps = [inner, ps[0]]
                         flows[tok].attrs['parents'] = ps
@@ -1036,6 +1044,30 @@ def loop_order_records(repo):
                     flows, labels = fresh()
                     alone[r] = ask(flows, labels, r)
                     n += 1
+                    # what the region graph itself says (parents and back edges followed upwards): the binding made at the end of the
+                    # body is visible wherever its region is an ancestor of the reader's region - through the back edge, inside the loop
+                    def up(fl):
+                        return [p.attrs['parent'] if p.cls.name == 'LoopFlow' else p for p in fl.attrs.get('parents') or []]
+                    anc, work = set(), up(flows[r[1]])
+                    while work:
+                        fl = work.pop()
+                        if id(fl) in anc:
+                            continue
+                        anc.add(id(fl))
+                        work.extend(up(fl))
+                    want_x = set()
+                    if id(flows['CUR']) in anc or r[1] == 'CUR':
+                        want_x.add('x before the loop')
+                    late_vis = id(flows[late_reg]) in anc or (r[1] == late_reg and r[2] > last_line + 2)
+                    if late_vis:
+                        want_x.add('x at the end of the body')
+                    want_y = {'y at the end of the body'} if late_vis else set()
+                    got_x = set(alone[r][0] or ()) - {'UNDEF'}
+                    got_y = set(alone[r][1] or ()) - {'UNDEF'}
+                    if late_vis and 'x before the loop' in want_x and late_reg != 'CUR':
+                        pass
+                    if not (want_x - {'x before the loop'} <= got_x <= want_x and got_y == want_y):
+                        wrong.append((cls, mode, r[0], (sorted(want_x), sorted(want_y)), alone[r]))
                 for q in reads:
                     for first in reads:
                         if first == q:
